@@ -1580,6 +1580,34 @@ func (rn *runner) concurrentRound() {
 		calls[i] = cl
 		rn.touched[hr{H, cl.r}] = true
 	}
+	if n >= 2 && w.r.chance(1, 2) {
+		// partly overlapping requests: callers X carry {A: S}, callers Y carry {A: S, B: T}. When all take their view
+		// snapshot before the kernel handles any of them, an X is applied first, then a Y is applied PARTLY (A conflicts
+		// with the version X left, B is new) and its retry finds nothing left to add: whatever entered the view with
+		// the partial application must still be counted, marked and handed to the consumers.
+		rn.stats["concurrent_partial_overlap_batches"]++
+		kind := kindPrecommit
+		if w.r.chance(1, 2) {
+			kind = kindPrevote
+		}
+		a := targets[0]
+		b := "other-block"
+		if len(targets) > 1 && w.r.chance(2, 3) {
+			b = targets[1+w.r.below(len(targets)-1)]
+		}
+		if w.r.chance(1, 3) {
+			a, b = b, a
+		}
+		perm := w.r.permPrefix(n, n)
+		sIdx := perm[:1]
+		// nothing else in this batch: a later change of the same view would publish what the partial application left
+		calls = calls[:0]
+		for rep := 0; rep < 2; rep++ {
+			calls = append(calls, call{kind: kind, r: R, proofs: map[string][]gcrypto.SparseSignature{a: rn.mkSigs(cur, kind, H, R, a, sIdx, 0)}})
+		}
+		calls = append(calls, call{kind: kind, r: R, proofs: map[string][]gcrypto.SparseSignature{
+			a: rn.mkSigs(cur, kind, H, R, a, sIdx, 0), b: rn.mkSigs(cur, kind, H, R, b, perm[1:2], 0)}})
+	}
 	start := make(chan struct{})
 	var wg sync.WaitGroup
 	for i := range calls {
